@@ -1975,4 +1975,106 @@ theorem miDiscrete_eq (v1 v2 : List ℝ) (base : ℝ) (h : v1.length = v2.length
   exact key.trans key2
 end CountMaps
 
+/-! ### weighted moments -/
+
+theorem zipWith3_self_nonneg (xs cs : List ℝ) (h : ∀ c ∈ cs, 0 ≤ c) :
+    0 ≤ (zipWith3 (fun x y c => x * y * c) xs xs cs).sum := by
+  induction xs generalizing cs with
+  | nil => simp [zipWith3]
+  | cons z zs ih =>
+    cases cs with
+    | nil => simp [zipWith3]
+    | cons d ds =>
+      simp only [zipWith3, List.sum_cons]
+      have := ih ds (fun e he => h e (by simp [he]))
+      have hd : 0 ≤ d := h d (by simp)
+      nlinarith [mul_self_nonneg z]
+
+/-- weighted Cauchy–Schwarz for lists (non-negative weights) -/
+theorem cauchy_schwarz_weighted (a b w : List ℝ) (hw : ∀ c ∈ w, 0 ≤ c) :
+    (zipWith3 (fun x y c => x * y * c) a b w).sum ^ 2 ≤
+      (zipWith3 (fun x y c => x * y * c) a a w).sum * (zipWith3 (fun x y c => x * y * c) b b w).sum := by
+  induction a generalizing b w with
+  | nil => simp [zipWith3]
+  | cons x xs ih =>
+    cases b with
+    | nil => simp [zipWith3]
+    | cons y ys =>
+      cases w with
+      | nil => simp [zipWith3]
+      | cons c cs =>
+        have hc : 0 ≤ c := hw c (by simp)
+        have hcs : ∀ d ∈ cs, 0 ≤ d := fun d hd => hw d (by simp [hd])
+        simp only [zipWith3, List.sum_cons]
+        have hA := zipWith3_self_nonneg xs cs hcs
+        have hB := zipWith3_self_nonneg ys cs hcs
+        have key := cs_step (Real.sqrt c * x) (Real.sqrt c * y) _ _ _ hA hB (ih ys cs hcs)
+        have hs : Real.sqrt c * Real.sqrt c = c := Real.mul_self_sqrt hc
+        have e1 : Real.sqrt c * x * (Real.sqrt c * y) = x * y * c := by
+          calc Real.sqrt c * x * (Real.sqrt c * y) = (Real.sqrt c * Real.sqrt c) * (x * y) := by ring
+            _ = x * y * c := by rw [hs]; ring
+        have e2 : (Real.sqrt c * x) ^ 2 = x * x * c := by
+          calc (Real.sqrt c * x) ^ 2 = (Real.sqrt c * Real.sqrt c) * (x * x) := by ring
+            _ = x * x * c := by rw [hs]; ring
+        have e3 : (Real.sqrt c * y) ^ 2 = y * y * c := by
+          calc (Real.sqrt c * y) ^ 2 = (Real.sqrt c * Real.sqrt c) * (y * y) := by ring
+            _ = y * y * c := by rw [hs]; ring
+        rw [e1, e2, e3] at key
+        exact key
+
+/-- the weights actually used by the weighted moments -/
+noncomputable def normW' (w : List ℝ) (nw : Bool) : List ℝ := if nw then w.map (· / w.sum) else w
+
+theorem covW_eq (v1 v2 w : List ℝ) (u nw : Bool) (h1 : v1.length = w.length) (h2 : v2.length = w.length) :
+    covW v1 v2 w u nw = .ok (
+      let wn := normW' w nw
+      let m1 := (List.zipWith (· * ·) v1 wn).sum
+      let m2 := (List.zipWith (· * ·) v2 wn).sum
+      let x := (zipWith3 (fun a b c => a * b * c) (v1.map (· - m1)) (v2.map (· - m2)) wn).sum
+      if u then x / (1 - (wn.map (fun a => a * a)).sum) else x) := by
+  have hwn : (normW' w nw).length = w.length := by unfold normW'; split <;> simp
+  have hwn' : (if nw then divC w (VecTools.sum w) else w) = normW' w nw := by
+    unfold normW'; simp [divC, sum_eq]
+  unfold covW
+  simp only [hwn']
+  have c1 : centerW v1 (normW' w nw) false = .ok (v1.map (· - (List.zipWith (· * ·) v1 (normW' w nw)).sum)) := by
+    simp [centerW, meanW, scalar_eq v1 _ (h1.trans hwn.symm), bind, Except.bind, pure, Except.pure]
+  have c2 : centerW v2 (normW' w nw) false = .ok (v2.map (· - (List.zipWith (· * ·) v2 (normW' w nw)).sum)) := by
+    simp [centerW, meanW, scalar_eq v2 _ (h2.trans hwn.symm), bind, Except.bind, pure, Except.pure]
+  rw [c1, c2]
+  simp only [bind, Except.bind]
+  rw [scalarW_eq _ _ _ (by simp [h1, hwn]) (by simp [h2, hwn])]
+  simp [pure, Except.pure, sum_eq]
+
+theorem corW_sq_le_one' (v1 v2 w : List ℝ) (nw : Bool) (h1 : v1.length = w.length) (h2 : v2.length = w.length)
+    (hw : ∀ c ∈ normW' w nw, 0 ≤ c)
+    (hA : ∃ a, varW v1 (normW' w nw) false false = .ok a ∧ 0 < a)
+    (hB : ∃ b, varW v2 (normW' w nw) false false = .ok b ∧ 0 < b) :
+    ∃ r, corW v1 v2 w nw = .ok r ∧ r ^ 2 ≤ 1 := by
+  have hwn : (normW' w nw).length = w.length := by unfold normW'; split <;> simp
+  have hwn' : (if nw then divC w (VecTools.sum w) else w) = normW' w nw := by
+    unfold normW'; simp [divC, sum_eq]
+  have hid : normW' (normW' w nw) false = normW' w nw := by simp [normW']
+  obtain ⟨a, ha, hapos⟩ := hA
+  obtain ⟨b, hb, hbpos⟩ := hB
+  unfold varW at ha hb
+  have e12 := covW_eq v1 v2 (normW' w nw) false false (h1.trans hwn.symm) (h2.trans hwn.symm)
+  have e11 := covW_eq v1 v1 (normW' w nw) false false (h1.trans hwn.symm) (h1.trans hwn.symm)
+  have e22 := covW_eq v2 v2 (normW' w nw) false false (h2.trans hwn.symm) (h2.trans hwn.symm)
+  simp only [hid, Bool.false_eq_true, if_false] at e12 e11 e22
+  rw [e11] at ha; rw [e22] at hb
+  simp only [Except.ok.injEq] at ha hb
+  unfold corW sdW varW
+  simp only [hwn']
+  rw [e12, e11, e22]
+  refine ⟨_, rfl, ?_⟩
+  simp only [sqrt_eq]
+  set wn := normW' w nw
+  set c1 := v1.map (· - (List.zipWith (· * ·) v1 wn).sum)
+  set c2 := v2.map (· - (List.zipWith (· * ·) v2 wn).sum)
+  have hcs := cauchy_schwarz_weighted c1 c2 wn hw
+  rw [ha] at hcs ⊢; rw [hb] at hcs ⊢
+  rw [div_pow, mul_pow, Real.sq_sqrt hapos.le, Real.sq_sqrt hbpos.le, div_le_one (mul_pos hapos hbpos)]
+  exact hcs
+
 end Bpp.VecTools
